@@ -199,4 +199,38 @@ def run (ua : Str) : St → List Ev → Option St
     | none => none
     | some s' => run ua s' es
 
+/-! ### `<meta name="robots" content="nofollow">` in the HTML scraper
+(`wpull/scraper/html.py`: `HTMLScraper.scrape`, `_process_elements`, `ElementWalker.robots_cannot_follow`)
+
+The HTML parser and the element walker (which attributes of which tags are links, and whether a link is
+`inline` / `linked`) are not modelled: an element is what they report for it. -/
+
+structure LinkCtx where
+  url : Nat
+  inline : Bool
+  linked : Bool
+  deriving DecidableEq, Repr
+
+structure Elem where
+  /-- `robots_cannot_follow(element)`: a `meta name=robots` whose content holds `nofollow` -/
+  nofollow : Bool
+  /-- link contexts the walker yields for the element (already joined, cleaned and accepted) -/
+  links : List LinkCtx
+  deriving Repr
+
+/-- `_process_elements`: one pass; the directive is remembered wherever it occurs -/
+def processElements (robots : Bool) : List Elem → List LinkCtx × Bool
+  | [] => ([], false)
+  | e :: es =>
+    let (cs, nf) := processElements robots es
+    (e.links ++ cs, (robots && e.nofollow) || nf)
+
+/-- `HTMLScraper.scrape`: with the directive seen, every context with `linked` set is dropped
+(`link_contexts.difference_update(...)`), page requisites stay -/
+def scrapeLinks (robots : Bool) (es : List Elem) : List LinkCtx :=
+  let (cs, nf) := processElements robots es
+  if nf then cs.filter (fun c => !c.linked) else cs
+
+def allLinks (es : List Elem) : List LinkCtx := es.flatMap (·.links)
+
 end Wpull.Robots
